@@ -135,3 +135,40 @@ Proof.
     + apply Forall_app. split; [|apply IH; assumption]. destruct pc; repeat constructor; lia.
     + constructor; [assumption|]. apply IH; assumption.
 Qed.
+
+(* ---------- unescaping never lengthens ---------------------------------------------- *)
+Lemma until_nul_length l : (length (until_nul l) <= length l)%nat.
+Proof. induction l as [|c r IH]; [cbn; lia|]. cbn [until_nul]. destruct (c =? 0); cbn [length]; lia. Qed.
+
+Lemma unescape_loop_length pts bc : forall n l pc, (length l <= n)%nat ->
+  (length (unescape_loop pts bc pc l) <= length l)%nat.
+Proof.
+  induction n as [|n IH]; intros l pc Hn.
+  { destruct l; [cbn; lia|cbn [length] in Hn; lia]. }
+  destruct l as [|c r]; [cbn; lia|]. cbn [length] in Hn. cbn [unescape_loop].
+  destruct (c =? 0); [cbn; lia|].
+  destruct (c =? 37).
+  - destruct r as [|a r1].
+    + cbn [unescape_loop length]. lia.
+    + cbn [length] in *. destruct (is_hexdig a).
+      * destruct r1 as [|b r2].
+        -- cbn [unescape_loop length]. lia.
+        -- cbn [length] in *. destruct (is_hexdig b).
+           ++ assert (forall x, (length x <= 2)%nat ->
+                (length (x ++ unescape_loop pts bc false r2) <= S (S (S (length r2))))%nat) as A.
+              { intros x Hx. rewrite app_length. specialize (IH r2 false ltac:(lia)). lia. }
+              assert (forall x, (length x <= 2)%nat ->
+                (length (x ++ unescape_loop pts bc true r2) <= S (S (S (length r2))))%nat) as B.
+              { intros x Hx. rewrite app_length. specialize (IH r2 true ltac:(lia)). lia. }
+              destruct (_ =? 10).
+              { apply A. destruct bc, pc; cbn; lia. }
+              destruct (_ =? 13).
+              { apply B. destruct bc; cbn; lia. }
+              cbn [length]. specialize (IH r2 false ltac:(lia)). lia.
+           ++ cbn [length]. specialize (IH (b :: r2) false ltac:(cbn [length]; lia)). cbn [length] in IH. lia.
+      * cbn [length]. specialize (IH (a :: r1) false ltac:(cbn [length]; lia)). cbn [length] in IH. lia.
+  - destruct (c =? 43); cbn [length]; specialize (IH r false ltac:(lia)); lia.
+Qed.
+
+Lemma unescape_length pts bc l : (length (unescape pts bc l) <= length l)%nat.
+Proof. apply (unescape_loop_length pts bc (length l)). lia. Qed.
